@@ -41,6 +41,24 @@ def abs_c(tokens):
     return out
 
 
+def macro_c(tokens):
+    """macrostep view of a generated machine's trace: dequeued events, logs, and the configuration at the end of
+    every macrostep (the last one reported before an event is taken from the external queue, and the final one)"""
+    out, last = [], None
+    for t in tokens:
+        if t.startswith("cfg:"): last = t
+        elif t == "xe":
+            if last: out.append(last)
+        elif t.startswith(("bpe:", "log:")): out.append(t)
+    if last: out.append(last)
+    return out
+
+
+def macro_s(tokens):
+    """the same view of the specification's trace (Spec.W3C reports the configuration after every macrostep)"""
+    return [t for t in tokens if t.startswith(("bpe:", "log:", "cfg:"))]
+
+
 def emit_c(ctx, docs):
     lines = ["c\t-\t%s" % hexs(charts.xml(d)) for d in docs]
     parts = list(chunks(lines, max(1, (len(lines) + 15) // 16)))
@@ -92,7 +110,7 @@ def suite(ctx, name, cases):
     C = c_traces(ctx, cases)
     lines = [E.case_line("large", d, e) for d, e in cases]
     H, M = E.run_batches(ctx, lines)
-    st = dict(inputs=len(cases), agree=0, known=0, refused=0, compile_errors=0, sanitizer=0, violations=0, i_ne_m=0, tokens=0)
+    st = dict(inputs=len(cases), agree=0, known=0, follows_spec=0, skipped=0, refused=0, compile_errors=0, sanitizer=0, violations=0, i_ne_m=0, tokens=0)
     for (d, evs), c, h, m in zip(cases, C, H, M):
         if c.startswith("EMIT:EXC"): st["refused"] += 1; continue
         want = abs_interp(m.split(" "))
@@ -107,6 +125,18 @@ def suite(ctx, name, cases):
         if ok and not c.startswith(("COMPILE", "EMIT")) and "SAN:" not in c:
             st["agree"] += 1
             continue
+        if not c.startswith(("COMPILE", "EMIT")) and "SAN:" not in c and c01.classify(d) and ("DIVERGE" in want or "DIVERGE" in got):
+            st["skipped"] += 1      # a run cut off by the step cap, on a chart where interpreter and Appendix D are known to differ: no oracle
+            continue
+        if not c.startswith(("COMPILE", "EMIT")) and "SAN:" not in c and c01.classify(d):
+            # the interpreter's recorded history findings: the generated machine is right if it follows Appendix D
+            _, S = E.run_batches(ctx, [E.case_line("spec", d, evs)], want_harness=False, nproc=1)
+            if macro_c(c.split(" ")) == macro_s(S[0].split(" ")) and "DIVERGE" not in c:
+                st["follows_spec"] += 1
+                continue
+        if not c.startswith(("COMPILE", "EMIT")) and "SAN:" not in c and charts.has_nested_history(d):
+            st["known"] += 1; ctx.known("hist-shared", "")
+            continue
         if not c.startswith(("COMPILE", "EMIT")) and "SAN:" not in c and charts.has_nested_targetless_pair(d):
             st["known"] += 1; ctx.known("nested-targetless", "")
             continue
@@ -115,8 +145,11 @@ def suite(ctx, name, cases):
         st["violations"] += 1
         if len(ctx.violations) < 4:
             def pred(d2, e2):
-                if c01.classify(d2) or charts.has_nested_targetless_pair(d2): return False
+                if charts.has_nested_targetless_pair(d2) or charts.has_nested_history(d2): return False
                 c2 = c_traces(ctx, [(d2, e2)])[0]
+                if c01.classify(d2):
+                    _, S2 = E.run_batches(ctx, [E.case_line("spec", d2, e2)], want_harness=False, nproc=1)
+                    if macro_c(c2.split(" ")) == macro_s(S2[0].split(" ")): return False
                 _, m2 = E.run_batches(ctx, [E.case_line("large", d2, e2)], want_harness=False, nproc=1)
                 w2, g2 = abs_interp(m2[0].split(" ")), abs_c(c2.split(" "))
                 if c.startswith("COMPILE"): return c2.startswith("COMPILE")
@@ -140,8 +173,7 @@ def gen(rng, n, **kw):
     while len(cases) < n:
         g = charts.Gen(rng, max_states=rng.choice([3, 5, 8, 12]), p_fail=0.0, **kw)
         d = g.chart()
-        if c01.classify(d): continue          # the interpreter's recorded history findings are not this property's subject
-        cases.append((d, charts.events_for(rng, g, rng.randint(0, 5))))
+        cases.append((d, charts.events_for(rng, g, rng.randint(0, 6))))
     return cases
 
 
@@ -151,14 +183,17 @@ def run(ctx):
     quick = ctx.tier == "quick"
     rng = ctx.rng
     s1 = suite(ctx, "genc-random", gen(rng, 160 if quick else 6000))
-    ex = [(c, e) for c, e in E.exhaustive_cases("quick" if quick else "thorough") if not c01.classify(c)]
+    # charts built around history: the parent of a history state is left and re-entered several times
+    s3 = suite(ctx, "genc-history", gen(rng, 120 if quick else 4000, p_history=0.9, p_loop=0.5, p_multi=0.1))
+    s4 = suite(ctx, "genc-history-revisit", E.history_revisit_cases(rng, 60 if quick else 2000))
+    ex = [(c, e) for c, e in E.exhaustive_cases("quick" if quick else "thorough")]
     if quick: ex = rng.sample(ex, min(len(ex), 160))
     s2 = suite(ctx, "genc-exhaustive", ex)
     ctx.sample({"suite": "genc-random"})
-    ctx.coverage["evaluations"] = s1["inputs"] + s2["inputs"]
+    ctx.coverage["evaluations"] = s1["inputs"] + s2["inputs"] + s3["inputs"] + s4["inputs"]
     ctx.coverage["distinct_nontrivial"] = s1["agree"] + s2["agree"]
     ctx.coverage["rule"] = ("random charts of 3-12 states (parallel, history, <initial>, finals, internal/targetless/multi-target/eventless transitions, raise/send/log/if in every kind of block; "
-                            "no failing elements; charts in the interpreter's recorded history findings excluded) x 0-5 external events, and the exhaustive small-chart family; "
+                            "no failing elements; on charts in the interpreter's recorded history findings a machine that follows Appendix D instead of the interpreter counts as right; a history-heavy family with longer event histories) x 0-5 external events, and the exhaustive small-chart family; "
                             "each emitted machine compiled with gcc -fsanitize=address,undefined and run; non-trivial = machines whose whole trace agrees")
     ctx.assumptions += ["the callbacks are this check's (gen/cdriver.c: null datamodel, W3C descriptor matching); the reference scaffold test-gen-c.cpp is exercised by C12 only",
                         "executable content that fails, datamodels, invoke and delayed send are outside the compared fragment",
